@@ -210,6 +210,12 @@ Section RunApi.
         else (stable_sort ev_cmp run ++ s :: canon_events t [])%list
     end.
 
+  (* the delete events of one Expire pass come namespace by namespace in Go map
+     order: group them by namespace text (stable) *)
+  Definition ns_text (d : doc) : string :=
+    match lookup d "ns" with Some v => show_value v | None => "" end.
+  Definition ns_cmp (a b : doc) : comparison := str_compare (ns_text a) (ns_text b).
+
   Definition oplog_docs (cat : catalog) : list sdoc := c_docs (oplog_of cat).
 
   (* events appended since `before` (a clock value): those with larger ts *)
@@ -242,7 +248,8 @@ Section RunApi.
             let before := cat_clock (ds_cat ds) in
             let len_before := len (oplog_docs (ds_cat ds)) in
             let '(ds', r) := step matchf applyf extractf projectf now ds c in
-            let evs := new_events (ds_cat ds') before in
+            let evs0 := new_events (ds_cat ds') before in
+            let evs := match c with CExpire _ => stable_sort ns_cmp evs0 | _ => evs0 end in
             let trimmed := (len_before + len evs - len (oplog_docs (ds_cat ds')))%Z in
             let line :=
               sp [show_reply r;
@@ -254,6 +261,7 @@ Section RunApi.
 
   Definition run_api (x : sexp) : option string :=
     match x with
+    | SList (SAtom "apirel" :: nw :: calls)
     | SList (SAtom "api" :: nw :: calls) =>
         match z_of nw with
         | Some now => Some (join_with " ;; " (run_calls now d_init calls))
